@@ -60,8 +60,9 @@ Definition conv_model (t : option Z) (args : list (option Z)) : Z :=
   match t with None => 0 | Some _ => conv_upto args end.
 Definition conv_spec (t : option Z) (args : list (option Z)) : Z := Z.of_nat (length args).
 
-Definition utcq_class (l : list (option Z)) : Z :=
-  if oz_eqb (clip (utcq_model l)) (utcq l) then 1 else 5.
+(* the only deviation left in newDateTime is the missing TimeClip (class 1); class 5 (two-digit year tested on the
+   unconverted number) was repaired by 875fefb and is no longer a known deviation *)
+Definition utcq_class (l : list (option Z)) : Z := 1.
 
 Definition qops (ops : list (Z * list (option Z))) := map (fun o => (fst o, tointf (snd o))) ops.
 Definition hist_class_z (off : Z) (t : option Z) (ops : list (Z * list (option Z))) : Z :=
